@@ -114,6 +114,9 @@ def gen_plan(seed: int, run: int, tier: str) -> dict:
         "busy_timeout": rng.choice([5.0, 60.0, 300.0]),
         "pool": rng.choice([1, 2, 3, 10]),
         "snapshot_interval": rng.choice([2, 3, 100]),
+        # pre-emption also inside copy.deepcopy (a reader that copies outside the lock sees a
+        # torn snapshot); only for the cheap in-process backends
+        "trace_copy": (not ("rdb" in kind or "cached" in kind)) and rng.random() < 0.3,
     }
     plan = {"check": ID, "seed": seed, "run": run, "cfg": cfg, "setup": setup, "tasks": tasks, "sched": {"seed": rng.getrandbits(48)}}
     if kind.startswith("grpc(") and rng.random() < 0.35:
@@ -259,7 +262,7 @@ def run_plan(plan: dict) -> dict:
     cfg = plan["cfg"]
     kind = cfg["deployment"]
     ch = common.make_chooser(plan)
-    sim = sched.Sim(ch, trace_suffixes=trace_files(kind), max_steps=60000, uuid_salt=str(plan.get("run", 0)))
+    sim = sched.Sim(ch, trace_suffixes=trace_files(kind) + (("/copy.py",) if cfg.get("trace_copy") else ()), max_steps=60000, uuid_salt=str(plan.get("run", 0)))
     dep = deploy.Deployment(sim, kind, cfg)
     try:
         return _run(plan, sim, ch, dep)
